@@ -127,16 +127,22 @@ def scoped_visit(node, scope, on_node):
 class Prov:
     def __init__(self, fn):
         self.fn = fn
-        # assignments to plain names anywhere in the function (flow-insensitive; only consulted for `mut` bindings)
+        # assignments to plain names, and values fed into a collection through its mutating methods (v.push(x), m.insert(k, x)), anywhere in the
+        # function (flow-insensitive; only consulted for `mut` bindings); each with the scope of the site, so that loop variables resolve
         self.assigned = {}
-        for x in walk(fn.body):
-            if x.get("k") == "assign" and x["l"].get("k") == "path":
-                self.assigned.setdefault(x["l"]["p"], []).append(x["r"])
-            if x.get("k") == "bin" and x.get("op", "").endswith("=") and x["op"] not in ("==", "!=", "<=", ">=") and x["l"].get("k") == "path":
-                self.assigned.setdefault(x["l"]["p"], []).append(x)
         self.root = Scope()
         for n in fn.param_names():
             self.root.vars[n] = {"how": "fnparam", "src": (None, None), "via": None}
+
+        def collect(x, sc):
+            if x.get("k") == "assign" and x["l"].get("k") == "path":
+                self.assigned.setdefault(x["l"]["p"], []).append((x["r"], sc))
+            if x.get("k") == "bin" and x.get("op", "").endswith("=") and x["op"] not in ("==", "!=", "<=", ">=") and x["l"].get("k") == "path":
+                self.assigned.setdefault(x["l"]["p"], []).append((x["r"], sc))
+            if x.get("k") == "mcall" and x["m"] in ("push", "push_back", "push_front", "insert", "extend", "append", "push_str") and x["r"].get("k") == "path":
+                for a_ in x["a"]:
+                    self.assigned.setdefault(x["r"]["p"], []).append((a_, sc))
+        scoped_visit(fn.body, self.root, collect)
 
     def visit(self, on_node):
         scoped_visit(self.fn.body, self.root, on_node)
@@ -168,8 +174,8 @@ class Prov:
                 out.add("elem")
             out |= self.tags(src, sscope, seen, depth + 1)
             if b.get("mut"):
-                for r in self.assigned.get(n, []):
-                    out |= self.tags(r, s, seen, depth + 1)
+                for r, rs in self.assigned.get(n, []):
+                    out |= self.tags(r, rs, seen, depth + 1)
             return out
         if k == "mcall":
             out.add("m:" + e["m"])
@@ -196,10 +202,41 @@ class Prov:
             for a in e.get("a", []):
                 out |= self.tags(a, scope, seen, depth + 1)
             return out
-        if k in ("if", "match", "block"):
+        if k == "closure":
+            s2 = scope.child() if scope is not None else Scope()
+            for p_ in e.get("params", []):
+                bind_pattern(p_, (None, scope), s2, "param")
+            return self.tags(e["b"], s2, seen, depth + 1)
+        if k == "struct":
+            out.add("f:" + e["p"].rsplit("::", 1)[-1])
+            for f in e["f"]:
+                out |= self.tags(f[1], scope, seen, depth + 1)
+            if e.get("rest") is not None:
+                out |= self.tags(e["rest"], scope, seen, depth + 1)
+            return out
+        if k in ("tuple", "array"):
+            for x in e["e"]:
+                out |= self.tags(x, scope, seen, depth + 1)
+            return out
+        if k == "block":
+            s2 = scope.child() if scope is not None else Scope()
+            last = None
+            for st in e["s"]:
+                if st.get("k") == "local":
+                    bind_pattern(st["p"], (st.get("init"), s2), s2, "let")
+                elif st.get("k") == "expr" and not st.get("semi"):
+                    last = st["e"]
+            return self.tags(last, s2, seen, depth + 1) if last is not None else out
+        if k in ("if", "match"):
             out.add("branch")
-            for x in walk(e):
-                if x is not e and x.get("k") in ("lit",):
-                    out.add("const")
+            if k == "if":
+                out |= self.tags(e["t"], scope, seen, depth + 1)
+                if e.get("e") is not None:
+                    out |= self.tags(e["e"], scope, seen, depth + 1)
+            else:
+                for a_ in e["arms"]:
+                    s2 = scope.child() if scope is not None else Scope()
+                    bind_pattern(a_["p"], (e["e"], scope), s2, "pat")
+                    out |= self.tags(a_["b"], s2, seen, depth + 1)
             return out
         return {"expr:" + str(k)}
